@@ -234,7 +234,7 @@ Lemma g_score_terms_ext (gi : ginput) (a b : state) :
 Proof.
   intros Hr Hu.
   unfold g_score_terms, obj_activation, obj_travel_duration, obj_vehicles_duration,
-    obj_early, obj_late, obj_min_stops, obj_stop_balance.
+    obj_early, obj_late, obj_min_stops, obj_stop_balance, cap_obj_terms, obj_capacity_excess.
   rewrite Hr, Hu. reflexivity.
 Qed.
 
